@@ -22,6 +22,10 @@ R10.7  allocation bounds: for every array obtained from calloc/malloc in the tra
 R10.8  name-section post-processing keeps heap strings alive: wasmFunctionNamesRemoveDuplicates is partially evaluated on every
        equality pattern of up to 5 function names (including unnamed slots) with heap objects that remember being freed; no
        string is read or freed after it was freed, duplicated names are cleared, unique names are kept
+R10.9  growable containers: the real code of the string builder, the type stack, the label stack and arrayEnsureCapacity is
+       partially evaluated on operation sequences (append one by one, bulk appends around the growth points, sparse sets, drop,
+       clear, push/pop) with allocations of exactly the requested size; every read and write must stay inside the allocation,
+       and the container invariants (length <= capacity = allocated size, terminator present) must hold after every step
 R10.5  name bytes: the hex escape of identifier bytes formats an unsigned byte with at most two digits in both twins
 """
 import math
@@ -1055,6 +1059,164 @@ def check_name_dedup(chk, tier):
     return n_cases
 
 
+# ---- R10.9 ----------------------------------------------------------------------------------------
+
+def check_growable(chk):
+    from .. import pe
+    from ..pe import Ptr
+    ctu = astdb.dump_ast(astdb.src('w2c2/c.c'))
+    sbtu = astdb.dump_ast(astdb.src('w2c2/stringbuilder.c'))
+    atu = astdb.dump_ast(astdb.src('w2c2/array.c'))
+    for t in (sbtu, atu):
+        chk.unit(t)
+    state = {'itemsize': 1}
+
+    def calloc(interp, args, node):
+        n, sz = args
+        if not isinstance(n, int) or n > 100000:
+            raise pe.PEError('calloc(%r)' % (n,))
+        state['itemsize'] = sz
+        return Ptr([0] * n, 0)
+
+    def malloc(interp, args, node):
+        if not isinstance(args[0], int):
+            raise pe.PEError('malloc(%r)' % (args[0],))
+        return Ptr([('uninit',)] * args[0], 0)
+
+    def realloc(interp, args, node):
+        p, nbytes = args
+        if not isinstance(nbytes, int) or nbytes % state['itemsize']:
+            raise pe.PEError('realloc(%r) with element size %r' % (nbytes, state['itemsize']))
+        n = nbytes // state['itemsize']
+        old = p.c[p.k:] if isinstance(p, Ptr) else []
+        return Ptr(list(old[:n]) + [('uninit',)] * max(0, n - len(old)), 0)
+
+    def strncpy(interp, args, node):
+        d, s_, n = args
+        src = s_ if isinstance(s_, str) else None
+        for i in range(n):
+            ch = (ord(src[i]) if i < len(src) else 0) if src is not None else interp.load(s_.c, s_.k + i)
+            interp.store(d.c, d.k + i, ch)
+        return d
+
+    def on_call(name, args, node):
+        if name in ('arrayEnsureCapacity', 'arrayEnsureCapacitySlowPath') and isinstance(args[3], int):
+            state['itemsize'] = args[3]
+    leafs = {'calloc': calloc, 'malloc': malloc, 'realloc': realloc, 'strncpy': strncpy, '__builtin_strncpy': strncpy,
+             'free': lambda i, a, n: None, '__assert_fail': pe.leaf_abort('assert')}
+
+    def machine(tus):
+        it = pe.Interp(tus, dict(leafs))
+        it.strict_bounds = True
+        it.strict_store_bounds = True
+        it.on_call = on_call
+        return it
+    bad = []
+    n_ops = 0
+
+    def run_seq(label, it, init_state, ops, invariant):
+        """ops: [(function, args builder(state))]; one PE run per prefix would be quadratic - instead one driver run per op"""
+        nonlocal n_ops
+        st = init_state
+        for k, (fn, mkargs) in enumerate(ops):
+            n_ops += 1
+
+            def setup(fn=fn, mkargs=mkargs):
+                return (fn, mkargs(st), {'st': st})
+            try:
+                paths = [p for p in it.explore(setup) if not p.aborted]
+            except pe.OutOfBounds as e:
+                bad.append('%s, operation %d (%s): %s' % (label, k, fn, e))
+                return
+            except pe.PEError as e:
+                if 'subscript of 0' in str(e) or 'NULL dereference' in str(e):
+                    bad.append('%s, operation %d (%s): NULL array used (%s)' % (label, k, fn, e))
+                    return
+                raise AnalysisBroken('R10.9 %s op %d %s: %s' % (label, k, fn, e))
+            if len(paths) != 1:
+                raise AnalysisBroken('R10.9 %s op %d %s: %d paths' % (label, k, fn, len(paths)))
+            pr = invariant(st, fn, paths[0].ret)
+            if pr:
+                bad.append('%s, after operation %d (%s): %s' % (label, k, fn, pr))
+                return
+    # --- string builder
+    it = machine([sbtu])
+    sb = {'string': 0, 'length': 0, 'capacity': 0}
+    cell = {'v': sb}
+    text = []
+
+    def sb_inv(st, fn, ret):
+        s_ = sb['string']
+        if not isinstance(s_, Ptr):
+            return 'no string'
+        if len(s_.c) != sb['capacity']:
+            return 'capacity %r but %d bytes allocated' % (sb['capacity'], len(s_.c))
+        if sb['length'] + 1 > sb['capacity']:
+            return 'length %d + terminator exceeds capacity %d' % (sb['length'], sb['capacity'])
+        if s_.c[sb['length']] != 0:
+            return 'missing terminator at %d' % sb['length']
+        if ''.join(chr(x) for x in s_.c[:sb['length']]) != ''.join(text):
+            return 'contents %r, expected %r' % (s_.c[:sb['length']], ''.join(text))
+        return None
+    ops = [('stringBuilderInitialize', lambda st: [Ptr(cell, 'v')])]
+    for i in range(40):
+        ch = chr(ord('a') + i % 26)
+        ops.append(('stringBuilderAppendChar', lambda st, ch=ch: (text.append(ch), [Ptr(cell, 'v'), ord(ch)])[1]))
+    for ln in (0, 1, 7, 8, 9, 33, 64, 2):
+        chunk = ('0123456789' * 7)[:ln]
+        ops.append(('stringBuilderAppendSized', lambda st, chunk=chunk: (text.append(chunk), [Ptr(cell, 'v'), chunk, len(chunk)])[1]))
+    ops.append(('stringBuilderReset', lambda st: (text.clear(), [Ptr(cell, 'v')])[1]))
+    ops.append(('stringBuilderAppendSized', lambda st: (text.append('xyz'), [Ptr(cell, 'v'), 'xyz', 3])[1]))
+    chk.fn('stringBuilderEnsureCapacity')
+    run_seq('string builder', it, None, ops, sb_inv)
+    # --- type stack / label stack (real arrayEnsureCapacity + slow path)
+    it = machine([ctu, atu])
+    ts = {'length': 0, 'capacity': 0, 'valueTypes': 0}
+    tcell = {'v': ts}
+
+    def ts_inv(st, fn, ret):
+        v = ts['valueTypes']
+        if ts['capacity'] and (not isinstance(v, Ptr) or len(v.c) != ts['capacity']):
+            return 'capacity %r but %r elements allocated' % (ts['capacity'], len(v.c) if isinstance(v, Ptr) else None)
+        if ts['length'] > ts['capacity']:
+            return 'length %d exceeds capacity %d' % (ts['length'], ts['capacity'])
+        if isinstance(v, Ptr) and any(x == ('uninit',) for x in v.c[:ts['length']]):
+            return 'uninitialised entries below length: %r' % (v.c[:ts['length']],)
+        return None
+    ops = []
+    for idx in (0, 1, 2, 5, 3, 17, 16, 40, 39, 41):
+        ops.append(('wasmTypeStackSet', lambda st, idx=idx: [Ptr(tcell, 'v'), idx, idx % 4]))
+    ops += [('wasmTypeStackDrop', lambda st: [Ptr(tcell, 'v'), 3]), ('wasmTypeStackDrop', lambda st: [Ptr(tcell, 'v'), 100]),
+            ('wasmTypeStackSet', lambda st: [Ptr(tcell, 'v'), 4, 1]), ('wasmTypeStackClear', lambda st: [Ptr(tcell, 'v')]),
+            ('wasmTypeStackSet', lambda st: [Ptr(tcell, 'v'), 0, 2]), ('wasmTypeStackIsSet', lambda st: [Ptr(tcell, 'v'), 0, 2]),
+            ('wasmTypeStackIsSet', lambda st: [Ptr(tcell, 'v'), 1, 2])]
+    chk.fn('wasmTypeStackSet')
+    run_seq('type stack', it, None, ops, ts_inv)
+    ls = {'labels': {'length': 0, 'capacity': 0, 'labels': 0}, 'nextLabelIndex': 0}
+    lcell = {'v': ls}
+
+    def ls_inv(st, fn, ret):
+        L = ls['labels']
+        v = L['labels']
+        if L['capacity'] and (not isinstance(v, Ptr) or len(v.c) != L['capacity']):
+            return 'capacity %r but %r elements allocated' % (L['capacity'], len(v.c) if isinstance(v, Ptr) else None)
+        if L['length'] > L['capacity']:
+            return 'length %d exceeds capacity %d' % (L['length'], L['capacity'])
+        return None
+    ops = []
+    for i in range(20):
+        ops.append(('wasmLabelStackPush', lambda st, i=i: [Ptr(lcell, 'v'), i, 0, Ptr({'v': {'index': 0, 'typeStackLength': 0, 'type': 0}}, 'v')]))
+    ops += [('wasmLabelStackPop', lambda st: [Ptr(lcell, 'v')])] * 22
+    ops += [('wasmLabelStackPush', lambda st: [Ptr(lcell, 'v'), 1, 0, Ptr({'v': {'index': 0, 'typeStackLength': 0, 'type': 0}}, 'v')]),
+            ('wasmLabelStackClear', lambda st: [Ptr(lcell, 'v')])]
+    chk.fn('wasmLabelStackPush')
+    run_seq('label stack', it, None, ops, ls_inv)
+    chk.expect(not bad, 'R10.9', 'growable-containers',
+               'a growable container reads or writes outside its allocation or breaks its invariant: %s' % ' | '.join(bad[:3]),
+               'growable-containers', detail_ok='%d operations on string builder, type stack and label stack stay inside their allocations' % n_ops)
+    return n_ops
+
+
 # ---- R10.6 ----------------------------------------------------------------------------------------
 
 def check_writer_bounds(chk):
@@ -1105,6 +1267,7 @@ def run(chk):
     n_wr = check_writer_bounds(chk)
     n_al = check_allocation_bounds(chk, funcs)
     n_nm = check_name_dedup(chk, chk.tier)
+    n_gr = check_growable(chk)
     chk.extra['sites'] = dict(sprintf=n_fmt, copies=n_cp, raw_buffer=n_buf, nullable_sinks=n_null,
                               tainted_locations=sorted(map(str, nf.tainted)), seed_evidence={str(k): v[:3] for k, v in just.items()})
     chk.floor('R10.1', 10)
